@@ -180,6 +180,37 @@ class Canon:
         return st
 
     @staticmethod
+    def _lift_next(st: ast.stmt) -> Optional[List[ast.stmt]]:
+        """`x = next((E for t in <literal table> if C), D)` / `return next(..)` is the first-match loop over the table:
+        `for t in <table>: if C: x = E; break` `else: x = D` (no default: StopIteration is raised)."""
+        v = st.value if isinstance(st, (ast.Assign, ast.AnnAssign, ast.Return)) else None
+        if not (isinstance(v, ast.Call) and isinstance(v.func, ast.Name) and v.func.id == "next" and 1 <= len(v.args) <= 2 and not v.keywords):
+            return None
+        g = v.args[0]
+        if not (isinstance(g, ast.GeneratorExp) and len(g.generators) == 1 and not g.generators[0].is_async and isinstance(g.generators[0].iter, (ast.Tuple, ast.List)) and g.generators[0].iter.elts):
+            return None
+        gen = g.generators[0]
+        if isinstance(st, ast.Assign) and not (len(st.targets) == 1 and isinstance(st.targets[0], (ast.Name, ast.Attribute))):
+            return None
+        if isinstance(st, ast.AnnAssign) and not isinstance(st.target, ast.Name):
+            return None
+        test = gen.ifs[0] if len(gen.ifs) == 1 else (ast.BoolOp(ast.And(), list(gen.ifs)) if gen.ifs else ast.Constant(True))
+
+        def give(e):
+            if isinstance(st, ast.Return):
+                return _loc(ast.Return(e), st)
+            tg = st.targets[0] if isinstance(st, ast.Assign) else st.target
+            return _loc(ast.Assign([copy.deepcopy(tg)], e), st)
+
+        miss = give(v.args[1]) if len(v.args) == 2 else _loc(ast.Raise(ast.Call(ast.Name("StopIteration", ast.Load()), [], []), None), st)
+        hit = [give(g.elt)] + ([] if isinstance(st, ast.Return) else [_loc(ast.Break(), st)])
+        loop = _loc(ast.For(gen.target, gen.iter, [_loc(ast.If(test, hit, []), st)], [] if isinstance(st, ast.Return) else [miss], None), st)
+        out = [loop] + ([miss] if isinstance(st, ast.Return) else [])
+        for o in out:
+            ast.fix_missing_locations(o)
+        return out
+
+    @staticmethod
     def _split_tuple_assign(st: ast.stmt) -> List[ast.stmt]:
         """`a, b = x, y` == `a = x; b = y` when no right-hand side reads what an earlier target writes
         (targets are names or attributes of names; right-hand sides are evaluated before any store in the original)."""
@@ -223,6 +254,10 @@ class Canon:
                 break
         i = 0
         while i < len(body):
+            nx = self._lift_next(body[i])
+            if nx is not None and isinstance(nx[0], ast.For) and self._unrollable(nx[0]):
+                body = body[:i] + nx + body[i + 1 :]
+                continue
             st = self._lift_ifexp(body[i])
             rest = body[i + 1 :]
             if isinstance(st, ast.If):
@@ -1262,6 +1297,18 @@ def inline_helpers(fn: ast.FunctionDef, helpers: Dict[str, Tuple[ast.FunctionDef
                         changed += 1
                         did = True
                         continue
+                # `for T in helper(args): B` with a plain (statement-bodied, non-generator) helper: the iterable is evaluated
+                # first, once — `t = helper(args); for T in t: B` (the call is then inlined as an assignment)
+                if isinstance(st, ast.For) and _helper_call(st.iter, helpers, cls):
+                    hd_ = helpers[_helper_call(st.iter, helpers, cls)][0]
+                    hb_ = [x for x in hd_.body if not _docstring(x)]
+                    if not any(isinstance(y, (ast.Yield, ast.YieldFrom)) for x in hb_ for y in ast.walk(x)) and not (len(hb_) == 1 and isinstance(hb_[0], ast.Return)):
+                        tmp = f"__h{zlib.crc32(ast.unparse(st.iter).encode()) % 100000}"
+                        blk.insert(i, _loc(ast.Assign([ast.Name(tmp, ast.Store())], st.iter), st))
+                        st.iter = ast.copy_location(ast.Name(tmp, ast.Load()), st.iter)
+                        changed += 1
+                        did = True
+                        continue
                 # `for T in gen_helper(args): B`  ==  the generator's body with each `yield e` replaced by `T = e; B`
                 if isinstance(st, ast.For) and not st.orelse and _helper_call(st.iter, helpers, cls):
                     name = _helper_call(st.iter, helpers, cls)
@@ -1663,8 +1710,8 @@ def canonicalise(tree: ast.Module, ref_funcs: Optional[Set[str]], ref_consts: Op
         fn.body = canon.function_body(fn.body)
         stats["functions"] += 1
     # ---- C8: new helpers and new module constants
+    helpers: Dict[str, Tuple[ast.FunctionDef, bool]] = {}
     if ref_funcs is not None:
-        helpers: Dict[str, Tuple[ast.FunctionDef, bool]] = {}
         for q, cls, fn, _c in funcs:
             if ".<locals>." in q or q in ref_funcs:
                 continue
@@ -1748,6 +1795,9 @@ def canonicalise(tree: ast.Module, ref_funcs: Optional[Set[str]], ref_consts: Op
             fn.body = canon.function_body(fn.body)
         return n
 
+    # module-level definitions and imports: names that are evidently not None
+    canon_flow._ONCE["defs"] = {st.name for st in tree.body if isinstance(st, (ast.FunctionDef, ast.AsyncFunctionDef, ast.ClassDef))} | {
+        (a.asname or a.name).split(".")[0] for st in tree.body if isinstance(st, (ast.Import, ast.ImportFrom)) for a in st.names}
     # ---- C5 / C6 after inlining (extracted code comes with parameter temporaries); local functions are functions too
     for q, cls, fn, _c in funcs:
         if ".<locals>." in q and not any(fn is x for _q2, _c2, f2, _b2 in funcs for x in ast.walk(f2) if f2 is not fn):
@@ -1761,6 +1811,13 @@ def canonicalise(tree: ast.Module, ref_funcs: Optional[Set[str]], ref_consts: Op
             b = propagate_temporaries(fn, keep=params)
             c = canon_flow.run(fn, canon.noreturn)
             c += nested_inline(q, fn)
+            if helpers and ".<locals>." not in q and not any(fn is h_[0] for h_ in helpers.values()):
+                # calls that the flow steps brought to light (a handler taken out of a dispatch table, say)
+                n2 = inline_helpers(fn, {k: v for k, v in helpers.items() if v[0] is not fn}, cls, canon)
+                if n2:
+                    stats["inlined_helpers"] += n2
+                    fn.body = canon.function_body(fn.body)
+                    c += n2
             stats["comprehensions"] += a
             stats["temporaries"] += b
             stats["flow"] = stats.get("flow", 0) + c
@@ -1768,6 +1825,17 @@ def canonicalise(tree: ast.Module, ref_funcs: Optional[Set[str]], ref_consts: Op
                 break
             fn.body = canon.function_body(fn.body)
         ast.fix_missing_locations(fn)
+    if helpers:
+        for name, (hdef, _is_m) in helpers.items():
+            short = hdef.name
+            still = any((isinstance(x, ast.Name) and x.id == short) or (isinstance(x, ast.Attribute) and x.attr == short) or (isinstance(x, ast.Constant) and x.value == short) for x in ast.walk(tree) if x is not hdef)
+            if not still:
+                for _q, _cls, f2, container in funcs:
+                    if f2 is hdef and hdef in container:
+                        container.remove(hdef)
+                        if not container:
+                            container.append(ast.Pass())
+                        stats["dropped_helpers"] = stats.get("dropped_helpers", 0) + 1
     return stats
 
 
